@@ -70,7 +70,9 @@ def run(ctx):
         # ---- (a) real generator
         np.random.seed(seed)
         L = b - a
-        mn, mx = sorted([ctx.rng.uniform(0, L / 1e9), ctx.rng.uniform(0, L / 1e9)])
+        # admissible shifts are not bounded by the support length (the wrap is a modulo): a third of the cases draw up to 3 L
+        Lmax = (3 * L if k % 3 == 0 else L) / 1e9
+        mn, mx = sorted([ctx.rng.uniform(0, Lmax), ctx.rng.uniform(0, Lmax)])
         r = nap.shift_timestamps(x, min_shift=mn, max_shift=mx) if k % 2 else nap.shift_timestamps(x)
         if len(r) != len(ts) or iset_ns(r.time_support) != ([a], [b]) or not all(a <= t <= b for t in ns_arr(r.t)):
             ctx.fail("oracle", "shift_timestamps: count / support not conserved", inp, impl=[len(r), ns_arr(r.t)], expected=len(ts))
@@ -170,6 +172,9 @@ def run(ctx):
         d = Draws(ctx.rng, q)
         r = with_draws(d, lambda: nap.shift_timestamps(x, min_shift=0.0, max_shift=(b - a) / 1e9 * 2))
         lines.append("shift %s %d %d %d" % (enc(ts), a, b, d.log[-1][1])); meta.append((dict(inp, op="shift", draws=d.log[-1][1]), ns_arr(r.t)))
+        if len(r) != len(ts) or iset_ns(r.time_support) != ([a], [b]) or not all(a <= t <= b for t in ns_arr(r.t)):
+            ctx.fail("oracle", "shift_timestamps (shift up to twice the support length): count / support not conserved", dict(inp, shift_ns=d.log[-1][1]),
+                     impl=[len(r), ns_arr(r.t)], expected=len(ts))
         d = Draws(ctx.rng, q)
         r = with_draws(d, lambda: nap.jitter_timestamps(x, max_jitter=2.0))
         lines.append("jitter %s %s" % (enc(ts), enc(d.log[-1][1]))); meta.append((dict(inp, op="jitter", draws=d.log[-1][1]), ns_arr(r.t)))
